@@ -4,6 +4,7 @@
 //! python driver (bin/check) hands to TLC or compares with TLC output.
 mod util;
 mod tc;
+mod sync;
 
 fn main() {
     let args: Vec<String> = std::env::args().collect();
@@ -15,6 +16,7 @@ fn main() {
     let code = match args[1].as_str() {
         "tc-walk" => tc::walk(&a),
         "tc-random" => tc::random(&a),
+        "tc-sync" => sync::run(&a),
         other => {
             eprintln!("unknown engine {other}");
             2
